@@ -34,14 +34,17 @@ ORDER = {f: n for n, f in enumerate(ALL)}
 CLASSES = ["recursive-macro", "recursive-include", "deep-nesting", "long-run", "comment-at-eof", "unterminated-string", "hash-line",
            "define-empty-param", "stray-directive", "macro-call-cut", "other"]
 SATURATE = 10        # crashes of one (chain, construct class) after which the general exploration steers around the class
-BULK_BUDGET_MS = 500
+WITNESSES = 20       # runs per (chain, named deviation predicted by Lex.tla) among the enumerated inputs
+BULK_BUDGET_MS = 400
 CONFIRM_BUDGET_MS = 6000
+BULK_ENV = {"ASAN_OPTIONS": "detect_leaks=0:abort_on_error=1:handle_abort=0:symbolize=0",
+            "UBSAN_OPTIONS": "halt_on_error=1:abort_on_error=1:print_stacktrace=0:symbolize=0"}
 
 
 # ------------------------------------------------------------------------------------------------
 # construct classes: a label for the finding key (one root cause = one key) and for steering; no verdict depends on it
 # ------------------------------------------------------------------------------------------------
-_RE_LINE_OK = re.compile(r"#line.[+-]?[0-9]", re.I | re.S)
+_RE_LINE_OK = re.compile(r"#line.[+-]?[0-9]{1,9}(?![0-9])", re.I | re.S)
 _RE_DEF_EMPTY = re.compile(r"#[ \t]*define[ \t]+\w+\([^)\n]*?(\([ \t]*,|,[ \t]*,|^[ \t]*,)", re.I)
 _RE_DEF_EMPTY2 = re.compile(r"#[ \t]*define[ \t]+\w+\([ \t]*,", re.I)
 _RE_SELF = re.compile(r"#[ \t]*define[ \t]+(\w+)(?:\([^)\n]*\))?[ \t]+[^\n]*?\b\1\b", re.I)
@@ -76,7 +79,11 @@ def lexer_class(text):
             j = text.find("*/", i + 2)
             if j < 0:
                 return "comment-at-eof"
-            i = j + 2
+            i = j                                        # both tokenizers leave the closing `*/` in the input
+            if text.startswith("*//", i):
+                i += 1                                   # ... so `*//` starts a line comment
+            else:
+                i += 2
             continue
         if c == "#":
             rest = text[i:].lower()
@@ -120,7 +127,10 @@ def mc_cfg(name, depth, emit, dev=None, invs=None, nnames=2):
 
 
 def mk(cid, text, which, kind="text", tag=None, **kw):
-    c = {"id": cid, "text": text, "which": sorted(which, key=lambda f: ORDER[f]), "kind": kind, "ops": "basic", "budget_ms": BULK_BUDGET_MS}
+    # the watchdog grows with the input (3 ms per byte beyond 1000): algorithms that are merely quadratic on 4-40 KB inputs
+    # are the business of TimeProportional, not of Terminates
+    c = {"id": cid, "text": text, "which": sorted(which, key=lambda f: ORDER[f]), "kind": kind, "ops": "basic",
+         "budget_ms": BULK_BUDGET_MS + 3 * max(0, len(text) - 1000)}
     if tag:
         c["tag"] = tag
     c.update(kw)
@@ -128,22 +138,23 @@ def mk(cid, text, which, kind="text", tag=None, **kw):
 
 
 def sym_cases(prints, quick, rng):
-    out = []
+    """-> (the enumerated strings, their wrapped / padded variants)"""
+    out, var = [], []
     for n, p in enumerate(prints):
         o = json.loads(p)
         if o["kind"] != "sym":
             continue
         text = "".join(SYM[s] for s in o["syms"])
         cid = "s%d" % n
-        out.append(mk(cid, text, ALL, kind="sym", syms=o["syms"], toks=True))
+        out.append(mk(cid, text, ALL, kind="sym", syms=o["syms"], toks=True, pred={"sqf": sorted(o["ds"]), "cfg": sorted(o["dc"])}))
         L = len(o["syms"])
         # the same bytes inside a config value, and at the end of a heap-allocated buffer of the parsers
         # (strings < 16 bytes live inside the std::string object, where the sanitizer sees no over-read)
         if L <= 2 or rng.random() < (0.12 if quick else 1.0):
-            out.append(mk(cid + "w", "class A { x = " + text + "; };", CFG, tag="wrapped"))
-            out.append(mk(cid + "v", "g = [" + text + "];", SQF, tag="wrapped"))
-            out.append(mk(cid + "p", " " * 17 + text, ["sqfparse", "cfgparse", "pp"], tag="padded"))
-    return out
+            var.append(mk(cid + "w", "class A { x = " + text + "; };", CFG, tag="wrapped", origin="sym-in-config-value"))
+            var.append(mk(cid + "v", "g = [" + text + "];", SQF, tag="wrapped", origin="sym-in-sqf-array"))
+            var.append(mk(cid + "p", " " * 17 + text, ["sqfparse", "cfgparse", "pp"], tag="padded", origin="sym-padded"))
+    return out, var
 
 
 def graph_cases(prints, wdir):
@@ -166,7 +177,7 @@ def graph_cases(prints, wdir):
                         lines.append("#define %s(x) %s" % (a, " ".join("%s(x)" % i if i in gr else "t0" for i in gr[a])))
                 lines.append(use if style == "obj" else use + "(1)")
                 out.append(mk("m%d%s" % (n, style[0]), "\n".join(lines) + "\n", PP, kind="macro", cyc=cyc, gr=gr, use=use,
-                              tag="recursive-macro" if cyc else "macro-graph"))
+                              tag="recursive-macro" if cyc else "macro-graph", pred={"pp": ["UnboundedMacroRecursion"] if cyc else []}))
         else:
             d = os.path.join(incroot, "g%d" % n)
             os.makedirs(d, exist_ok=True)
@@ -251,7 +262,7 @@ def corpus(rng, quick):
     return base
 
 
-def special_cases():
+def special_cases(quick):
     """stray directives, cut macro calls, deep nesting, long runs, raw bytes: (tag, text, front ends)"""
     out = []
     dirs = ["#", "# ", "#\n", "#else", "#endif", "#ifdef", "#ifdef X", "#ifndef X", "#ifdef X\n#else\n#else\n#endif", "#ifdef X\n#ifdef Y\n#endif", "#foo", "#foo bar",
@@ -264,13 +275,12 @@ def special_cases():
         for ctx, t in (("", d), ("a = 1;\n", "a = 1;\n" + d), ("mid", "a = 1; " + d), ("then", d + "\nb = 2;\n")):
             out.append(("stray-directive", t, ALL))
     calls = ["F(", "F(1", "F(1,", "F(1,2", "F((1)", "F(\"a", "F(\"a)", "F([1,2", "F({", "F(1))", "F()", "F(,)", "F(F(", "F(F(1)", "F(G", "F(\n", "F(1,\n2", "F", "F (1)", "G(1)", "G(1,2,3)",
-             "F(F)", "F(G)", "G(F,F)", "F(#)", "F(##)", "F(\\\n)", "F(/*)", "F(//)", "F(__LINE__", "F(__EVAL(1)", "__EVAL(", "__EVAL(1", "__EVAL(\"a)", "__EVAL()", "__EVAL(1 +)",
-             "__EVAL(compile \"//\")", "__EXEC(a = 1)", "__EVAL(a)", "__EVAL(__EVAL(1))", "__FILE__", "__LINE__(", "__COUNTER_RESET__"]
+             "F(F)", "F(G)", "G(F,F)", "F(#)", "F(##)", "F(\\\n)", "F(/*)", "F(//)", "F(__LINE__", "F(__EVAL(1)", "__EVAL(", "__EVAL(1", "__EVAL(\"a)", "__EVAL()", "__EVAL(1 +)", "__EXEC(a = 1)", "__EVAL(a)", "__EVAL(__EVAL(1))", "__FILE__", "__LINE__(", "__COUNTER_RESET__"]
     for c in calls:
         for d in ("#define F(x) x + 1\n#define G(x,y) x##y #x\n", "#define F(x) F2(x)\n#define F2(y) [y]\n#define G(x,y) F(x) y\n"):
             out.append(("macro-call-cut", d + c, PP))
             out.append(("macro-call-cut", d + "v = " + c + ";\n", PP))
-    for depth in (200, 2000):
+    for depth in ((200, 600) if quick else (200, 2000)):
         for o, c in (("(", ")"), ("[", "]"), ("{", "}")):
             out.append(("deep-nesting", o * depth + "1" + c * depth, SQF + PP))
             out.append(("deep-nesting", o * depth, SQF + PP))
@@ -292,7 +302,7 @@ def special_cases():
         out.append(("deep-nesting", "#define X\n" + "#ifdef X\n" * depth + "a\n" + "#endif\n" * depth, PP))
         out.append(("deep-nesting", "#define X\n" + "#ifdef X\n" * depth, PP))
         out.append(("deep-nesting", "".join("#define M%d M%d\n" % (i, i + 1) for i in range(depth)) + "#define M%d 1\nM0\n" % depth, PP))
-    for n in (2000, 20000):
+    for n in ((2000,) if quick else (2000, 20000)):
         for unit in ("/**/", "//\n", "// c\n ", "\\\n", " ", "\n", ";", "a ", "\"\"", "''", "\"a\" ", "1 ", "#\n", ",", "=", "0x", "1e", "$", ".", "@", "\r\n", "/* c */ ", "a\\\n"):
             out.append(("long-run", unit * n, SQF + PP if unit not in ("#\n",) else PP))
         out.append(("long-run", "class A { x = " + "a " * n + "; };", CFG))
@@ -310,11 +320,45 @@ def special_cases():
     return out
 
 
+
+def scale_families(quick):
+    """families of inputs of growing size for TimeProportional: (family, front end, f(n) -> text, n)"""
+    n = 500 if quick else 2000
+    m = 5000 if quick else 20000
+    fams = [
+        ("nested-array", "sqfparse", lambda k: "a = " + "[" * k + "1" + "]" * k, n),
+        ("nested-code", "sqfparse", lambda k: "a = " + "{" * k + "1" + "}" * k, n),
+        ("nested-parens", "sqfparse", lambda k: "a = " + "(" * k + "1" + ")" * k, n),
+        ("nested-array", "sqftok", lambda k: "a = " + "[" * k + "1" + "]" * k, n),
+        ("sum", "sqfparse", lambda k: "a = 1" + " + 1" * k, m),
+        ("statements", "sqfparse", lambda k: "a = 1;" * k, m),
+        ("array-elements", "sqfparse", lambda k: "a = [" + "1," * k + "1]", m),
+        ("statements", "compile", lambda k: "a = 1;" * k, m),
+        ("string", "sqftok", lambda k: '"' + "a" * (4 * k) + '"', m),
+        ("nested-array", "cfgparse", lambda k: "class A { x[] = " + "{" * k + "1" + "}" * k + "; };", n),
+        ("nested-class", "cfgparse", lambda k: "".join("class C%d {" % i for i in range(k)) + "};" * k, n),
+        ("value-tokens", "cfgparse", lambda k: "class A { x = " + "a " * k + "; };", m),
+        ("array-elements", "cfgparse", lambda k: "class A { x[] = {" + "1," * k + "1}; };", m),
+        ("fields", "cfgparse", lambda k: "class A {" + "x = 1;" * k + "};", m),
+        ("fields", "configparse__", lambda k: "class A {" + "x = 1;" * k + "};", m),
+        ("value-tokens", "cfgtok", lambda k: "class A { x = " + "a " * k + "; };", m),
+        ("words", "pp", lambda k: "a " * k, m),
+        ("lines", "pp", lambda k: "a = 1;\n" * k, m),
+        ("comments", "pp", lambda k: "/* c */ // d\n" * k, m),
+        ("macro-uses", "pp", lambda k: "#define M 1\n" + "M " * k, m),
+        ("macro-chain", "pp", lambda k: "".join("#define M%d M%d\n" % (i, i + 1) for i in range(k)) + "#define M%d 1\nM0\n" % k, n // 2),
+        ("nested-call", "pp", lambda k: "#define F(x) x\n" + "F(" * k + "1" + ")" * k, n // 2),
+        ("defines", "pp", lambda k: "".join("#define M%d %d\n" % (i, i) for i in range(k)), m // 5),
+        ("words", "preprocess__", lambda k: "a " * k, m),
+    ]
+    return fams
+
+
 # ------------------------------------------------------------------------------------------------
 # driving and validating
 # ------------------------------------------------------------------------------------------------
 def wire(case):
-    return {k: v for k, v in case.items() if k in ("id", "text", "which", "toks", "root", "file", "budget_ms", "ops")}
+    return {k: v for k, v in case.items() if k in ("id", "text", "which", "toks", "root", "file", "budget_ms", "ops", "once")}
 
 
 def reset_of(case):
@@ -322,20 +366,10 @@ def reset_of(case):
             "cls": case.get("tag") or "-"}
 
 
-def drive(cases, wdir, tag, kind="asan", saturated=None, stats=None):
-    """runs the cases; a front end that does not come back ends its case, the front ends of the OTHER chains are re-queued
-    as a follow-up execution.  -> [(exec id, case, [events])]"""
+def drive(todo, wdir, tag, kind="asan", env=None):
+    """todo: [(execution id, case, front ends)].  A front end that does not come back ends its case; the front ends of the
+    OTHER chains are re-queued as a follow-up execution.  -> [(exec id, case, [events])]"""
     execs = []
-    todo = []
-    for c in cases:
-        which = c["which"]
-        if saturated:
-            keep = [f for f in which if (CHAIN[f], construct_class(c, CHAIN[f])) not in saturated]
-            if len(keep) != len(which) and stats is not None:
-                stats["steered"] = stats.get("steered", 0) + len(which) - len(keep)
-            which = keep
-        if which:
-            todo.append((c["id"], c, which))
     rnd = 0
     while todo:
         batch = []
@@ -344,7 +378,7 @@ def drive(cases, wdir, tag, kind="asan", saturated=None, stats=None):
             w["id"] = xid
             w["which"] = which
             batch.append(w)
-        events = vlib.run_driver("front", batch, wdir, kind=kind, timeout_s=30, tag="%s.r%d" % (tag, rnd))
+        events = vlib.run_driver("front", batch, wdir, kind=kind, timeout_s=60, tag="%s.r%d" % (tag, rnd), env=env)
         by = vlib.events_by_case(events)
         nxt = []
         for xid, c, which in todo:
@@ -378,6 +412,14 @@ def validate(execs, wdir, tag):
                                 chunks=min(12, max(1, len(ex) // 400)))
 
 
+def crashed_fe(evs):
+    """front end that did not come back in this execution (None if all did)"""
+    if not any(e["e"] == "Crash" for e in evs):
+        return None
+    begun = [e["fe"] for e in evs if e["e"] == "Begin"]
+    return begun[-1] if begun else None
+
+
 def show(text, limit=100):
     s = json.dumps(text)
     return s if len(s) <= limit else s[:limit - 20] + '..."(%d bytes)' % len(text)
@@ -394,6 +436,12 @@ def asan_kind(path):
 
 
 def run(rep, tier, seed, replay):
+    import time
+    t_start = time.time()
+
+    def phase(msg):
+        vlib.log("[C10] %6.1fs %s" % (time.time() - t_start, msg))
+
     rng = random.Random(seed)
     quick = tier == "quick"
     vlib.build("asan")
@@ -413,63 +461,75 @@ def run(rep, tier, seed, replay):
         "memory safety ('never reads outside the input buffer') is SENSED, not decided: the replay driver is the ASan+UBSan build, the tokenizers get the text "
         "at the end of an exact-size heap block, an out-of-buffer read aborts the child and is judged as a NoCrash failure (DESIGN.md 8); texts shorter than 16 bytes "
         "live inside the std::string object of the parsers, where the sanitizer cannot see an over-read - a sample is therefore also run with 17 blanks in front",
-        "'time proportional to the input' is checked as a step bound on the model (Terminates: <= len+1 steps) and on the tokenizers (<= 4*len+16 calls of next()), "
-        "and as a wall-clock watchdog per front-end run (%d ms in the bulk run, %d ms when a failure is confirmed)" % (BULK_BUDGET_MS, CONFIRM_BUDGET_MS),
+        "'time proportional to the input' is checked as a step bound on the model (Terminates: <= len+1 steps) and on the tokenizers (<= 4*len+16 calls of next()), as a wall-clock "
+        "watchdog per front-end run (%d ms + 3 ms per byte beyond 1000 in the bulk run, at least %d ms when a failure is confirmed), and as TimeProportional: on the NORMAL build the "
+        "time per byte may grow at most 3x when a family input grows 4x (runs under 800 ms are not judged)" % (BULK_BUDGET_MS, CONFIRM_BUDGET_MS),
         "symbol alphabet of Lex.tla: 21 symbols standing for g 0 e x line \" ' / * LF blank # . $ - = { } ; \\ @ ; keywords, tabs, CR, brackets other than {} are covered by the corpus only",
         "front ends: tokenizer::next loops (sqftok, cfgtok), parser_sqf().parse, parser_config().parse, parser_preprocessor().preprocess, and the operators compile / preprocess__ / "
         "configparse__ executed from a script that reads the text from a global variable; each run twice on fresh VMs (determinism)",
         "VMs of the bulk run register the operator sets config, diag, generic, logic, math, namespace, sqfvm, string, text, osspecific, hashmap ('basic': an ASan VM with all ~2500 "
-        "operators costs 20 ms); confirmations and a sample use the full set the CLI registers",
+        "operators costs 20 ms); confirmations, the valid corpus inputs and a 4% sample use the full set the CLI registers",
         "a case whose tokenizer run does not come back is not fed to the parser / operator built on that tokenizer; a failure seen in several front ends of one chain "
         "(sqftok < sqfparse < compile, cfgtok < cfgparse < configparse__, pp < preprocess__) is keyed by the innermost one",
-        "after %d failures of one (chain, construct class) the remaining cases of that class are not given to that chain any more (general exploration steers around a found "
-        "defect, DESIGN.md 4); the enumerated symbol strings and graphs are always run completely" % SATURATE,
+        "steering (DESIGN.md 4): among the ENUMERATED inputs a chain predicted by Lex.tla (CodeDevs) to take a named deviation is run on the %d shortest inputs per deviation only, "
+        "the others are run too as soon as fewer than half of these witnesses fail; among the sampled inputs a chain is not given a construct class any more after %d failures "
+        "of that (chain, class)" % (WITNESSES, SATURATE),
         "a stack overflow reported by the sanitizer build (4x stack) counts only if the normal build with the default 8 MB stack crashes on the same input",
         "ResultOrDiagnostic for configparse__ is trivially true (the operator returns nothing); recursion of macros must be reported only when the recursive macro is used",
         "TLC 1.8 / Json+IOUtils community modules; driver projection harness/cmd_front.cpp; construct classes are labels computed by a light lexer in this file, no verdict depends on them",
     ]
-    rep.rule = ("every symbol string <= Depth over the 21-symbol alphabet of Lex_MC (each also wrapped into a config value / an SQF array and padded, sampled), every macro and include graph "
+    rep.rule = ("every symbol string <= Depth over the 21-symbol alphabet of Lex_MC (a sample also wrapped into a config value / an SQF array and padded), every macro and include graph "
                 "over 2 names with bodies <= 2 items (object-like and function-like), every prefix at a token boundary and every single-token mutation (delete, duplicate, replace, "
                 "unbalance, cut inside string/comment/directive/macro call) of the first 40 lines of tests/sqf/*.sqf, tests/config.cpp, tests/preprocess/*.sqf, generated preprocessor "
-                "sources and three hand-written inputs (seeded sample in the quick tier), stray directives, cut macro calls, nesting depth 200/2000, runs of 2000/20000 units, every "
-                "single byte in 11 contexts; distinct by (text, front ends); non-trivial = text of >= 2 bytes")
+                "sources and three hand-written inputs (seeded sample in the quick tier), stray directives, cut macro calls, nesting depth 200/600 (thorough 2000; quick reaches 2000 in "
+                "the timing families), runs of 2000 (20000) units, every single byte in 11 contexts; distinct by (text, front ends); non-trivial = text of >= 2 bytes")
     design = None
+    scale_todo = []
     if replay:
         obj = json.load(open(replay))
-        cases = [obj["case"]]
-        exhaustive_cases, other_cases = cases, []
+        enumerated, sampled = [obj["case"]], []
+        enumerated[0].pop("pred", None)
+        if "family_index" in obj:                        # a TimeProportional finding: re-measure the pair of its family
+            enumerated = []
+            k = obj["family_index"]
+            fam, fe, f, size = scale_families(quick)[k]
+            for j, sz in enumerate((size, 4 * size)):
+                scale_todo.append(mk("t%d_%d" % (k, j), f(sz), [fe], tag="long-run" if "nested" not in fam else "deep-nesting", origin="family %s n=%d" % (fam, sz),
+                                     fam=fam, famidx=k, once=True, ops="full", budget_ms=600000))
+            pool = concurrent.futures.ThreadPoolExecutor(max_workers=1)
     else:
-        # ---- 1. generator run (ideal model, all invariants) - the design check proper runs concurrently with the driver
+        # ---- 1. generator run (ideal model, all invariants) - the deeper design check runs concurrently with the driver
         gd = 3 if quick else 4
         g = vlib.tlc("Lex_MC", mc_cfg("gen", gd, True), workers=8 if quick else vlib.NCPU, timeout_s=3000, xmx="12g", tag="c10.gen")
         if not g.ok:
             raise vlib.MachineryError("design check of the ideal scanners failed (depth %d): %s %s" % (gd, g.violated, (g.error or g.trace_text or "")[:1500]))
         rep.add_tlc(g, "Lex_MC ideal (Dev = {}): all %d symbol strings <= %d and all macro/include graphs over 2 names: 9 invariants hold; generator" % (
             len([p for p in g.prints if '"kind":"sym"' in p]), gd))
-        pool = concurrent.futures.ThreadPoolExecutor(max_workers=3)
+        phase("generator done: %d prints" % len(g.prints))
+        pool = concurrent.futures.ThreadPoolExecutor(max_workers=2)
 
         def design_check():
             res = []
             dd = 4 if quick else 5
-            r = vlib.tlc("Lex_MC", mc_cfg("mc", dd, False, nnames=2 if quick else 3), workers=8 if quick else vlib.NCPU, timeout_s=6000, xmx="16g", tag="c10.mc")
+            r = vlib.tlc("Lex_MC", mc_cfg("mc", dd, False, nnames=2 if quick else 3), workers=6 if quick else vlib.NCPU, timeout_s=6000, xmx="16g", tag="c10.mc")
             res.append(("ideal", dd, r))
             for dev, inv in DEVS:
                 r2 = vlib.tlc("Lex_MC", mc_cfg("dev_%s_%s" % (dev, inv), 3, False, dev=dev, invs=[inv]), workers=1, timeout_s=900, tag="c10.dev.%s.%s" % (dev, inv))
                 res.append((dev, inv, r2))
             return res
         design = pool.submit(design_check)
-        exhaustive_cases = sym_cases(g.prints, quick, rng) + graph_cases(g.prints, wdir)
+        syms, variants = sym_cases(g.prints, quick, rng)
+        enumerated = syms + graph_cases(g.prints, wdir)
         rep.exhaustive = True
-        rep.extra["enumerated_symbol_strings"] = len([c for c in exhaustive_cases if c["kind"] == "sym"])
-        rep.extra["enumerated_graphs"] = len([c for c in exhaustive_cases if c["kind"] in ("macro", "include")])
+        rep.extra["enumerated_symbol_strings"] = len(syms)
+        rep.extra["enumerated_graphs"] = len(enumerated) - len(syms)
         # ---- 2. corpus: prefixes and single-token mutations, special inputs
-        other_cases = []
+        sampled = list(variants)
         seen = set()
-        base = corpus(rng, quick)
         per_op = 4 if quick else None
         n = 0
-        for name, text, which in base:
-            other_cases.append(mk("b%d" % n, text, which, tag="valid", origin=name, ops="full"))
+        for name, text, which in corpus(rng, quick):
+            sampled.append(mk("b%d" % n, text, which, tag="valid", origin=name, ops="full"))
             n += 1
             for tg, m in mutations(name, text, rng, per_op):
                 key = (m, tuple(which))
@@ -477,73 +537,148 @@ def run(rep, tier, seed, replay):
                     continue
                 seen.add(key)
                 op = tg.split(":")[-1]
-                other_cases.append(mk("u%d" % n, m, which, tag="macro-call-cut" if op == "macro-call-cut" else op, origin=tg,
-                                      ops="full" if rng.random() < 0.04 else "basic"))
+                sampled.append(mk("u%d" % n, m, which, tag="macro-call-cut" if op == "macro-call-cut" else op, origin=tg,
+                                  ops="full" if rng.random() < 0.04 else "basic"))
                 n += 1
-        specials = special_cases()
+        specials = special_cases(quick)
         if quick:
-            specials = [s for s in specials if not (s[0] == "byte" and len(s[1]) > 1 and rng.random() > 0.12)
-                        and not (s[0] == "long-run" and len(s[1]) > 45000)]
+            specials = [s for s in specials if not (s[0] == "byte" and len(s[1]) > 1 and rng.random() > 0.12)]
         for tg, t, which in specials:
             key = (t, tuple(which))
             if key in seen:
                 continue
             seen.add(key)
-            other_cases.append(mk("x%d" % n, t, which, tag=tg, origin=tg, budget_ms=BULK_BUDGET_MS * (8 if len(t) > 1500 else 1)))
+            sampled.append(mk("x%d" % n, t, which, tag=tg, origin=tg))
             n += 1
-        rng.shuffle(other_cases)
-        cases = exhaustive_cases + other_cases
-    cmap = {c["id"]: c for c in cases}
+        rng.shuffle(sampled)
+        # ---- timing families (normal build, single run)
+        for k, (fam, fe, f, size) in enumerate(scale_families(quick)):
+            for j, sz in enumerate((size, 4 * size)):
+                t = f(sz)
+                scale_todo.append(mk("t%d_%d" % (k, j), t, [fe], tag="long-run" if "nested" not in fam else "deep-nesting", origin="family %s n=%d" % (fam, sz),
+                                     fam=fam, famidx=k, once=True, ops="full", budget_ms=120000 if quick else 600000))
+    cases = enumerated + sampled + scale_todo
     rep.extra["distinct_nontrivial"] = len({c["text"] for c in cases if len(c["text"]) >= 2})
     rep.extra["cases"] = len(cases)
+    phase("%d enumerated, %d sampled, %d timing cases" % (len(enumerated), len(sampled), len(scale_todo)))
 
-    # ---- 3./4. drive the sanitizer build, validate by TLC (batched; steering information flows from batch to batch)
-    stats = {}
-    saturated = set()
-    crash_count = {}
     bad, results = [], []
     totals = {"lines": 0, "ops": 0, "execs": 0}
     exec_index = {}
-    sample_ids = {c["id"] for c in (exhaustive_cases[:1] + exhaustive_cases[600:602] + other_cases[:4])}
-    batches = [exhaustive_cases] + [other_cases[i:i + 3000] for i in range(0, len(other_cases), 3000)]
+
+    def judge(execs, tag):
+        for xid, c, evs in execs:
+            exec_index[xid] = (c, evs)
+        b, t, r = validate(execs, wdir, tag)
+        bad.extend(b)
+        results.extend(r)
+        totals["lines"] += t["lines"]
+        totals["ops"] += t["ops"]
+        totals["execs"] += len(execs)
+        rep.evaluations += sum(1 for _, _, evs in execs for e in evs if e["e"] in ("Obs", "Crash"))
+        for f in os.listdir(wdir):
+            if f.startswith(tag + ".trace.") and f.endswith(".ndjson"):
+                os.remove(os.path.join(wdir, f))
+
+    # ---- 3a. timing families on the normal build (in the background: few long single-threaded runs)
+    scale_future = None
+    if scale_todo:
+        def scale_run():
+            return drive([(c["id"], c, c["which"]) for c in scale_todo], wdir, "c10scale", kind="rel")
+        scale_future = pool.submit(scale_run)
+
+    # ---- 3b. enumerated inputs on the sanitizer build: witnesses of the predicted deviations first
     stack(big)
     try:
-        for bn, part in enumerate(batches):
-            if not part:
-                continue
-            execs = drive(part, wdir, "c10b%d" % bn, saturated=saturated if bn > 0 else None, stats=stats)
+        todo, withheld, groups = [], [], {}
+        for c in enumerated:
+            which = list(c["which"])
+            for ch, devs in sorted(c.get("pred", {}).items()):
+                if not devs:
+                    continue
+                gk = (ch, "+".join(devs))
+                grp = groups.setdefault(gk, [])
+                if len(grp) < WITNESSES:
+                    grp.append(c["id"])
+                else:
+                    held = [f for f in which if CHAIN[f] == ch]
+                    which = [f for f in which if CHAIN[f] != ch]
+                    withheld.append((gk, c, held))
+            if which:
+                todo.append((c["id"], c, which))
+        execs = drive(todo, wdir, "c10enum", env=BULK_ENV)
+        phase("enumerated inputs driven: %d executions, %d front-end runs withheld as predicted deviations" % (len(execs), sum(len(h) for _, _, h in withheld)))
+        failed = {}
+        for xid, c, evs in execs:
+            fe = crashed_fe(evs)
+            if fe:
+                failed.setdefault(c["id"], set()).add(CHAIN[fe])
+        stale = {gk for gk, ids in groups.items() if 2 * sum(1 for i in ids if gk[0] in failed.get(i, ())) < len(ids)}
+        extra = [("%s+%s" % (c["id"], gk[0]), c, held) for gk, c, held in withheld if gk in stale]
+        if extra:
+            rep.notes.append("prediction of Lex.tla no longer holds for %s: the %d withheld runs were executed" % (sorted(stale), len(extra)))
+            execs += drive(extra, wdir, "c10enum2", env=BULK_ENV)
+        rep.extra["withheld_predicted_front_end_runs"] = sum(len(h) for gk, _, h in withheld if gk not in stale)
+        rep.extra["witness_groups"] = {"%s/%s" % gk: len(ids) for gk, ids in sorted(groups.items())}
+        for xid, c, evs in execs[:1] + execs[700:702]:
+            rep.samples.append({"input": show(c["text"], 160), "origin": c["kind"],
+                                "observed": [{k: e[k] for k in ("fe", "ok", "nerr", "ntok", "same", "fin") if k in e} if e["e"] == "Obs" else {"crash": e.get("why")}
+                                             for e in evs if e["e"] in ("Obs", "Crash")]})
+        judge(execs, "c10enum")
+        phase("enumerated inputs validated: %d rejections so far" % len(bad))
+
+        # ---- 3c. sampled inputs, batched; a (chain, class) that failed SATURATE times is steered around
+        saturated, crash_count, steered = set(), {}, 0
+        bsize = 2500
+        for bn in range(0, len(sampled), bsize):
+            todo = []
+            for c in sampled[bn:bn + bsize]:
+                which = [f for f in c["which"] if (CHAIN[f], construct_class(c, CHAIN[f])) not in saturated]
+                steered += len(c["which"]) - len(which)
+                if which:
+                    todo.append((c["id"], c, which))
+            execs = drive(todo, wdir, "c10s%d" % bn, env=BULK_ENV)
             for xid, c, evs in execs:
-                exec_index[xid] = (c, evs)
-                for e in evs:
-                    if e["e"] == "Crash":
-                        begun = [b["fe"] for b in evs if b["e"] == "Begin"]
-                        k = (CHAIN[begun[-1]], construct_class(c, CHAIN[begun[-1]]))
-                        crash_count[k] = crash_count.get(k, 0) + 1
-                        if crash_count[k] >= SATURATE and k[1] != "other":
-                            saturated.add(k)
-                if c["id"] in sample_ids and xid == c["id"]:
-                    rep.samples.append({"input": show(c["text"], 160), "origin": c.get("origin", c["kind"]),
-                                        "observed": [{k: e[k] for k in ("fe", "ok", "nerr", "ntok", "same", "fin") if k in e} if e["e"] == "Obs" else {"crash": e.get("why")}
-                                                     for e in evs if e["e"] in ("Obs", "Crash")]})
-            b, t, r = validate(execs, wdir, "c10b%d" % bn)
-            bad += b
-            results += r
-            totals["lines"] += t["lines"]
-            totals["ops"] += t["ops"]
-            totals["execs"] += len(execs)
-            rep.evaluations += sum(1 for _, _, evs in execs for e in evs if e["e"] in ("Obs", "Crash"))
-            for f in os.listdir(wdir):
-                if f.endswith(".ndjson"):
-                    os.remove(os.path.join(wdir, f))
+                fe = crashed_fe(evs)
+                if fe:
+                    k = (CHAIN[fe], construct_class(c, CHAIN[fe]))
+                    crash_count[k] = crash_count.get(k, 0) + 1
+                    if crash_count[k] >= SATURATE and k[1] != "other":
+                        saturated.add(k)
+            for xid, c, evs in execs[:2]:
+                rep.samples.append({"input": show(c["text"], 160), "origin": c.get("origin", c["kind"]),
+                                    "observed": [{k: e[k] for k in ("fe", "ok", "nerr", "ntok", "same", "fin") if k in e} if e["e"] == "Obs" else {"crash": e.get("why")}
+                                                 for e in evs if e["e"] in ("Obs", "Crash")]})
+            judge(execs, "c10s%d" % bn)
+            phase("sampled batch %d: %d executions, %d rejections so far, saturated %s" % (bn // bsize, len(execs), len(bad), sorted(saturated)))
+        rep.extra["steered_around_front_end_runs"] = steered
+        rep.extra["saturated_classes"] = sorted("%s/%s" % k for k in saturated)
     finally:
         stack(default_stack)
+
+    # ---- 3d. the timing families: crashes are judged like any run, pairs (n, 4n) by TimeProportional
+    if scale_future is not None:
+        execs = scale_future.result()
+        obs = {}
+        for xid, c, evs in execs:
+            for e in evs:
+                if e["e"] == "Obs":
+                    obs[c["id"]] = (c, e)
+        for k, (fam, fe, f, size) in enumerate(scale_families(quick)):
+            if replay and k != obj.get("family_index"):
+                continue
+            a, b = obs.get("t%d_0" % k), obs.get("t%d_1" % k)
+            if a and b:
+                sc = {"e": "Scale", "id": "scale%d" % k, "fe": fe, "fam": fam, "n1": len(a[0]["text"]), "ms1": a[1]["ms"], "n2": len(b[0]["text"]), "ms2": b[1]["ms"]}
+                execs.append(("scale%d" % k, mk("scale%d" % k, b[0]["text"], [fe], tag=b[0]["tag"], origin="family %s" % fam, scale=sc), [sc]))
+                rep.extra.setdefault("timing_ms", {})["%s/%s" % (fe, fam)] = [sc["n1"], sc["ms1"], sc["n2"], sc["ms2"]]
+        judge(execs, "c10scale")
+        phase("timing families judged")
     for r in results:
         rep.add_tlc(r)
     rep.traces = totals["execs"]
     rep.extra["trace_lines"] = totals["lines"]
     rep.extra["front_end_runs_explained"] = totals["ops"]
-    rep.extra["steered_around_front_end_runs"] = stats.get("steered", 0)
-    rep.extra["saturated_classes"] = sorted("%s/%s" % k for k in saturated)
 
     # ---- the design check that ran meanwhile
     if design is not None:
@@ -556,26 +691,26 @@ def run(rep, tier, seed, replay):
                 if r.violated != b_:
                     raise vlib.MachineryError("non-vacuity self-test: deviation %s should violate %s, TLC said %s %s" % (a, b_, r.violated, (r.error or "")[:400]))
                 w = re.findall(r"inp = (<<[^\n]*>>)|gr \|-> (\[[^\n]*\])\]", r.trace_text)
-                wit = (w[-1][0] or w[-1][1]) if w else "?"
-                if a in ("UnboundedMacroRecursion", "IncludeCycleUnchecked"):
-                    wit = [x[1] for x in w if x[1]][-1] if [x for x in w if x[1]] else wit
-                else:
-                    wit = [x[0] for x in w if x[0]][-1] if [x for x in w if x[0]] else wit
-                rep.design_runs.append({"what": "deviation %s refuted by %s, shortest witness %s (design-level confirmation; non-vacuity)" % (a, b_, wit),
+                wi = [x[1] for x in w if x[1]] if a in ("UnboundedMacroRecursion", "IncludeCycleUnchecked") else [x[0] for x in w if x[0]]
+                rep.design_runs.append({"what": "deviation %s refuted by %s, shortest witness %s (design-level confirmation; non-vacuity)" % (a, b_, wi[-1] if wi else "?"),
                                         "generated": r.generated, "distinct": r.distinct})
+        phase("design check collected")
 
-    # ---- 5. classify
-    drift = [b for b in bad if b["why"].startswith("DRIFT")]
+    # ---- 5. classify; confirm each key on a single re-run
+    with open(os.path.join(wdir, "bad.json"), "w") as f:
+        json.dump([dict(b, text=exec_index[b["id"]][0]["text"][:300], origin=exec_index[b["id"]][0].get("origin", "")) for b in bad], f, indent=0)
     for b in bad:
         if b["why"].startswith("MACHINERY"):
             raise vlib.MachineryError("driver fault: %s  text=%s" % (b, show(exec_index[b["id"]][0]["text"])))
+    drift = [b for b in bad if b["why"].startswith("DRIFT")]
     if drift:
         ex = exec_index[drift[0]["id"]][0]
         print("NOTE model-drift action=Tokens front_end=%s (x%d) e.g. %s" % (drift[0]["op"], len(drift), show(ex["text"])))
         rep.notes.append("model drift: %d token streams differ from the transcription of Lex.tla while every formula holds, e.g. %s on %s" % (len(drift), drift[0]["op"], show(ex["text"])))
-    real = [b for b in bad if not b["why"].startswith("DRIFT")]
     groups = {}
-    for b in real:
+    for b in bad:
+        if b["why"].startswith("DRIFT"):
+            continue
         c = exec_index[b["id"]][0]
         ch = CHAIN[b["op"]]
         groups.setdefault((b["why"], ch, construct_class(c, ch)), []).append(b)
@@ -589,11 +724,26 @@ def run(rep, tier, seed, replay):
         confirmed = None
         for b in cands[:3]:
             c = dict(exec_index[b["id"]][0])
-            c.update({"id": "confirm", "which": [fe], "budget_ms": CONFIRM_BUDGET_MS, "ops": "full"})
+            if why == "TimeProportional":
+                # re-measure the pair
+                k = c["scale"]["id"]
+                pair = [x for x in scale_todo if "t%s_" % k[5:] == x["id"][:len(k[5:]) + 2]]
+                ex2 = drive([(x["id"], x, x["which"]) for x in pair], wdir, "c10confirm", kind="rel")
+                o2 = {x[1]["id"]: e for x in ex2 for e in x[2] if e["e"] == "Obs"}
+                if len(o2) != 2:
+                    continue
+                sc = dict(c["scale"], ms1=o2[pair[0]["id"]]["ms"], ms2=o2[pair[1]["id"]]["ms"])
+                ex2 = [("confirm", c, [sc])]
+                b2, _, _ = validate(ex2, wdir, "c10confirm")
+                if not b2:
+                    rep.notes.append("rejection %s did not repeat on re-measurement" % key)
+                    continue
+                confirmed = (b, c, b2, ex2, " %d bytes in %d ms, %d bytes in %d ms (normal build, single run)" % (sc["n1"], sc["ms1"], sc["n2"], sc["ms2"]))
+                break
+            c.update({"id": "confirm", "which": [fe], "budget_ms": max(CONFIRM_BUDGET_MS, 4 * c.get("budget_ms", 0)), "ops": "full"})
             stack(big)
             try:
-                ex2 = drive([c], wdir, "c10confirm")
-                errkind = ""
+                ex2 = drive([("confirm", c, [fe])], wdir, "c10confirm")
                 b2, _, _ = validate(ex2, wdir, "c10confirm")
             finally:
                 stack(default_stack)
@@ -604,9 +754,13 @@ def run(rep, tier, seed, replay):
             note = ""
             if why == "NoCrash":
                 # which kind of sanitizer report; stack overflows must also happen in the normal build with the default stack
-                ev = vlib.run_driver("front", [wire(c)], wdir, kind="asan", timeout_s=30, jobs=1, tag="c10kind")
+                stack(big)
+                try:
+                    vlib.run_driver("front", [wire(c)], wdir, kind="asan", timeout_s=60, jobs=1, tag="c10kind")
+                finally:
+                    stack(default_stack)
                 errkind = asan_kind(os.path.join(wdir, "c10kind.0.out.ndjson.stderr"))
-                evr = vlib.run_driver("front", [wire(c)], wdir, kind="rel", timeout_s=30, jobs=1, tag="c10rel")
+                evr = vlib.run_driver("front", [wire(c)], wdir, kind="rel", timeout_s=60, jobs=1, tag="c10rel")
                 relcrash = [e for e in evr if e["e"] == "Crash"]
                 note = " sanitizer: %s; normal build: %s" % (errkind or "?", relcrash[0].get("why") if relcrash else "no crash")
                 if "stack-overflow" in errkind and not relcrash:
@@ -618,9 +772,14 @@ def run(rep, tier, seed, replay):
             continue
         b, c, b2, ex2, note = confirmed
         dev = b2[0].get("dev", "")
+        info = ("no return within %d ms" % c.get("budget_ms", 0)) if why == "Terminates" else ("family " + b2[0].get("info", "")) if why == "TimeProportional" else b2[0].get("info", "")
         what = "%s violated by %s on %s [%s]: %s%s; front ends affected: %s; %d cases%s" % (
-            why, fe, show(c["text"]), cls, "no return within %d ms" % CONFIRM_BUDGET_MS if why == "Terminates" else b2[0].get("info", ""), note, ",".join(fes), len(bs),
-            ("; explained by the named deviation %s of Lex.tla" % dev) if dev else "")
-        rep.finding(key, what, {"property": "C10", "key": key, "case": {k: v for k, v in c.items() if k != "origin"}, "origin": c.get("origin", c["kind"]),
-                                "observed": ex2[0][2], "verdict": b2})
+            why, fe, show(c["text"]), cls, info, note, ",".join(fes), len(bs), ("; explained by the named deviation %s of Lex.tla" % dev) if dev else "")
+        robj = {"property": "C10", "key": key, "case": {k: v for k, v in c.items() if k not in ("origin", "scale")}, "origin": c.get("origin", c["kind"]),
+                "observed": ex2[0][2], "verdict": b2}
+        if why == "TimeProportional":
+            robj["family_index"] = int(c["scale"]["id"][5:])
+            robj["case"]["text"] = show(c["text"], 200)
+        rep.finding(key, what, robj)
         rep.found[key]["count"] += len(bs) - 1
+    phase("classified")
